@@ -411,7 +411,17 @@ class TD3(RLAlgorithm):
         :param policy_noise: Standard deviation of noise applied to policy, defaults to 0.2
         :type policy_noise: float, optional
         """
-        states, actions, rewards, next_states, dones = experiences
+        if isinstance(experiences, (tuple, list)):
+            states, actions, rewards, next_states, dones = experiences
+        else:
+            # TensorDict as returned by the replay buffers / Sampler
+            states, actions, rewards, next_states, dones = (
+                experiences["obs"],
+                experiences["action"],
+                experiences["reward"],
+                experiences["next_obs"],
+                experiences["done"],
+            )
 
         actions = actions.to(self.device)
         rewards = rewards.to(self.device)
